@@ -1840,19 +1840,26 @@ func writeIfChanged(path, content string) error {
 	return os.Rename(tmp, path)
 }
 
-type known struct{ typ, what, why string }
+// known: deviations of the pinned tree that are stated (and proved) instead of the plain obligation, so that a change of
+// the source in either direction breaks the build of Bridge/C09Skel.lean and the list has to be revisited.
+//
+//	Type mirror-upto N reason…    the two sides agree on the versions 0..N the type implements and part beyond
+//	Type schema-upto N reason…    the same for the tie to the hand-written schema
+//	Type mirror-differs reason…   the pair does not mirror at all (with the reason why that is no defect / a defect)
+type known struct {
+	typ, what, why string
+	n              int
+}
 
-// readKnown: lines `Type mirror|schema reason…` — obligations known to fail on the pinned tree; they are emitted
-// negated (`… = false`), so a repair of the source breaks them and the list has to be updated.
-func readKnown(path string) ([]known, error) {
-	var out []known
+func readKnown(path string) (map[string]known, error) {
+	out := map[string]known{}
 	if path == "" {
-		return nil, nil
+		return out, nil
 	}
 	data, err := ioutil.ReadFile(path)
 	if err != nil {
 		if os.IsNotExist(err) {
-			return nil, nil
+			return out, nil
 		}
 		return nil, err
 	}
@@ -1861,15 +1868,32 @@ func readKnown(path string) ([]known, error) {
 		if l == "" || strings.HasPrefix(l, "#") {
 			continue
 		}
-		f := strings.SplitN(l, " ", 3)
+		f := strings.Fields(l)
 		if len(f) < 2 {
 			return nil, fmt.Errorf("%s: bad line %q", path, l)
 		}
 		k := known{typ: f[0], what: f[1]}
-		if len(f) == 3 {
-			k.why = f[2]
+		rest := f[2:]
+		switch k.what {
+		case "mirror-upto", "schema-upto":
+			if len(rest) == 0 {
+				return nil, fmt.Errorf("%s: missing version in %q", path, l)
+			}
+			n, err := strconv.Atoi(rest[0])
+			if err != nil {
+				return nil, fmt.Errorf("%s: bad version in %q", path, l)
+			}
+			k.n, rest = n, rest[1:]
+		case "mirror-differs":
+		default:
+			return nil, fmt.Errorf("%s: unknown kind in %q", path, l)
 		}
-		out = append(out, k)
+		k.why = strings.ReplaceAll(strings.Join(rest, " "), "-/", "- /")
+		kind := "mirror"
+		if k.what == "schema-upto" {
+			kind = "schema"
+		}
+		out[k.typ+" "+kind] = k
 	}
 	return out, nil
 }
@@ -1893,10 +1917,8 @@ func main() {
 		fmt.Fprintln(os.Stderr, "skel:", err)
 		os.Exit(2)
 	}
-	knownSet := map[string]string{}
-	for _, k := range kn {
-		knownSet[k.typ+" "+k.what] = k.why
-	}
+	knownSet := kn
+	usedKnown := map[string]bool{}
 	schemaNames := map[string]bool{}
 	if *schemas != "" {
 		data, err := ioutil.ReadFile(*schemas)
@@ -1944,6 +1966,7 @@ func main() {
 	br.WriteString("namespace Bridge.C09Skel\nopen Model.Codec Gen.C09Skel\n\n")
 
 	nBody, nBodyOK, nBlock, nBlockOK, nSchema := 0, 0, 0, 0, 0
+	nMirror, nMirrorUpto, nMirrorDiffers, nSchemaUpto := 0, 0, 0, 0
 	var unsupportedLines []string
 	var supported []string
 	for _, ty := range types {
@@ -1982,15 +2005,27 @@ func main() {
 			nBlockOK++
 		}
 		supported = append(supported, ty)
-		if why, bad := knownSet[ty+" mirror"]; bad {
-			fmt.Fprintf(&br, "/-- KNOWN DEFECT of the pinned tree: %s -/\ntheorem %s_mirror_known_defect : mirror %s.encSkel %s.decSkel = false := by decide +kernel\n", why, ty, ty, ty)
+		if k, bad := knownSet[ty+" mirror"]; bad {
+			usedKnown[ty+" mirror"] = true
+			if k.what == "mirror-upto" {
+				fmt.Fprintf(&br, "theorem %s_mirror_upto : mirrorUpTo %d %s.encSkel %s.decSkel = true := by decide +kernel\n", ty, k.n, ty, ty)
+				fmt.Fprintf(&br, "/-- beyond version %d the two sides part: %s -/\ntheorem %s_mirror_beyond : mirror %s.encSkel %s.decSkel = false := by decide +kernel\n", k.n, k.why, ty, ty, ty)
+				nMirrorUpto++
+			} else {
+				fmt.Fprintf(&br, "/-- %s -/\ntheorem %s_mirror_differs : mirror %s.encSkel %s.decSkel = false := by decide +kernel\n", k.why, ty, ty, ty)
+				nMirrorDiffers++
+			}
 		} else {
 			fmt.Fprintf(&br, "theorem %s_mirror : mirror %s.encSkel %s.decSkel = true := by decide +kernel\n", ty, ty, ty)
+			nMirror++
 		}
 		if schemaNames[ty] {
 			nSchema++
-			if why, bad := knownSet[ty+" schema"]; bad {
-				fmt.Fprintf(&br, "/-- KNOWN DEVIATION: %s -/\ntheorem %s_schema_known_deviation : schemaTie %s.encSkel (bodySchema %s) = false := by decide +kernel\n", why, ty, ty, leanStr(ty))
+			if k, bad := knownSet[ty+" schema"]; bad {
+				usedKnown[ty+" schema"] = true
+				fmt.Fprintf(&br, "theorem %s_schema_upto : schemaTieUpTo %d %s.encSkel (bodySchema %s) = true := by decide +kernel\n", ty, k.n, ty, leanStr(ty))
+				fmt.Fprintf(&br, "/-- beyond version %d the skeleton and the schema part: %s -/\ntheorem %s_schema_beyond : schemaTie %s.encSkel (bodySchema %s) = false := by decide +kernel\n", k.n, k.why, ty, ty, leanStr(ty))
+				nSchemaUpto++
 			} else {
 				fmt.Fprintf(&br, "theorem %s_schema : schemaTie %s.encSkel (bodySchema %s) = true := by decide +kernel\n", ty, ty, leanStr(ty))
 			}
@@ -2015,8 +2050,19 @@ func main() {
 	gen.WriteString("-/\n\nend Gen.C09Skel\n")
 	br.WriteString("end Bridge.C09Skel\n")
 
-	summary := fmt.Sprintf("skel: %d types with an encode/decode pair: %d bodies (%d supported), %d nested blocks (%d supported); %d schema ties",
-		len(types), nBody, nBodyOK, nBlock, nBlockOK, nSchema)
+	summary := fmt.Sprintf("skel: %d types with an encode/decode pair: %d bodies (%d supported), %d nested blocks (%d supported); "+
+		"obligations: %d mirror + %d mirror up to the implemented versions + %d stated differences; %d schema ties (%d up to the implemented versions)",
+		len(types), nBody, nBodyOK, nBlock, nBlockOK, nMirror, nMirrorUpto, nMirrorDiffers, nSchema, nSchemaUpto)
+	var stale []string
+	for k := range knownSet {
+		if !usedKnown[k] {
+			stale = append(stale, k)
+		}
+	}
+	sort.Strings(stale)
+	for _, k := range stale {
+		fmt.Fprintf(os.Stderr, "skel: warning: known-list entry %q matches no supported type\n", k)
+	}
 	if *out == "" {
 		fmt.Print(gen.String())
 	} else if err := writeIfChanged(*out, gen.String()); err != nil {
